@@ -18,6 +18,7 @@ var probeNames = []string{
 	"fallback.sequential", "offset.65535", "cross.block.match",
 	"flush.barrier.checked", "reset.equiv.checked", "misuse.call",
 	"sentinel.behind.pending", "legacy", "skippable.skipped",
+	"same.after.history", "same.not.comparable",
 }
 
 const nProbes = 48
